@@ -83,12 +83,16 @@ def make_logger_class(log: EventLog) -> type:
             self.error_logger = None
 
         async def access(self, request: Any, response: Any, request_time: float) -> None:
+            # the record is built the way hypercorn.logging.Logger.access builds it (atoms and
+            # format string), so that code runs - and fails - exactly as under a real handler
+            line = self.access_log_format % self.atoms(request, response, request_time)
             log.add(
                 "access",
                 path=request.get("path"),
                 scope_type=request.get("type"),
                 scope_id=id(request),
                 status=None if response is None else response.get("status"),
+                line=line,
             )
 
         async def critical(self, message: str, *a: Any, **k: Any) -> None:
